@@ -280,4 +280,226 @@ theorem hct_tip (L : Nat) (v : VerifiedMulti Node VH) (A : Nat → List (Key × 
   · rw [hstep, hdrop]
     exact ⟨_, rfl⟩
 
+
+/-! ### a whole range -/
+
+theorem Outcome.bind_ok_right {ε α : Type} (x : Outcome ε α) : (x >>= fun a => (Outcome.ok a : Outcome ε α)) = x := by
+  cases x <;> rfl
+
+/-- **ingesting the terminals of a range.**  From the state after `advance` for the range's first
+terminal: all `size` terminals are ingested without reaching a panic site, the pending stack becomes what
+the single-path algorithm computes on the reconstructed path proofs, and `CommonSiblings` is left holding
+the siblings above the target layer, having taken all the range's siblings and bisections. -/
+theorem ingest_block (L : Nat) (v : VerifiedMulti Node VH) (A : Nat → List (Key × Option VH))
+    (hsafe : ∀ i t, v.inner[i]? = some t →
+      buildTrieSlicePanics L t.depth (leafOpsSpliced t.terminal.asLeaf (A i)) = false) :
+    ∀ (T : PTree Node VH) (pos : List Bool) (ctx : Ctx Node) (off i0 b0 tgt : Nat) (P : Stack Node)
+      (cs : CommonSiblings Node),
+      T.WF → T.Aligned pos → ctx.length = pos.length →
+      SegAt v.inner i0 (T.vpaths pos off) → SegAt v.bisections b0 (T.vbis pos off) → SegAt v.siblings off T.flat →
+      cs.stack = stackOf (ctx ++ T.firstCtx H) → cs.taken = (T.first pos off).uEnd →
+      cs.bisIdx = b0 + T.leftBisN → cs.termIdx = i0 + 1 →
+      NextOK v pos tgt (i0 + T.size) → PendOK P ctx tgt →
+      ∃ cs', (hctOne H L v i0 (A i0) (P, cs) >>= ingestN H L v A (T.size - 1) (i0 + 1)) =
+          .ok (runV H (T.upds H A pos ctx i0) ((v.inner[i0 + T.size]?).map (·.route)) P, cs') ∧
+        cs'.stack = stackOf (ctx.take tgt) ∧ cs'.taken = off + T.used ∧
+        cs'.bisIdx = b0 + (T.vbis pos off).length ∧ cs'.termIdx = i0 + T.size ∧
+        ∃ x, runV H (T.upds H A pos ctx i0) ((v.inner[i0 + T.size]?).map (·.route)) P
+              = (x, tgt) :: P.dropWhile (fun e => decide (e.2 > tgt)) := by
+  intro T
+  induction T with
+  | tip t seg us =>
+    intro pos ctx off i0 b0 tgt P cs hwf hal hctx hin hbis hsib hst htk hbi hti hnext hpend
+    have hin0 : v.inner[i0]? = some { terminal := t, depth := pos.length + seg.length, uStart := off,
+                                      uEnd := off + us.length, route := pos ++ seg } := by
+      have := hin.getElem? 0 (by simp [PTree.vpaths])
+      simpa [PTree.vpaths] using this
+    obtain ⟨cs', hr, hs', ht', hb', hti', hx⟩ := hct_tip H L v A hsafe t seg us pos ctx off i0 tgt P cs hwf hal hctx
+      hin0 hst hnext hpend
+    refine ⟨cs', ?_, hs', ?_, ?_, ?_, ?_⟩
+    · simp only [PTree.size, Nat.sub_self, ingestN, PTree.upds, runV]
+      rw [hr]; rfl
+    · rw [ht', htk]; rfl
+    · rw [hb', hbi]; rfl
+    · rw [hti', hti]; rfl
+    · simpa only [PTree.size, PTree.upds, runV] using hx
+  | fork seg cs_ l r ihl ihr =>
+    intro pos ctx off i0 b0 tgt P cs hwf hal hctx hin hbis hsib hst htk hbi hti hnext hpend
+    obtain ⟨hsc, hwl, hwr⟩ := hwf
+    obtain ⟨hall, halr⟩ := hal
+    obtain ⟨htgt, hnx⟩ := hnext
+    obtain ⟨hsorted, hPle, hiff⟩ := hpend
+    simp only [PTree.vpaths] at hin
+    simp only [PTree.vbis] at hbis
+    simp only [PTree.flat] at hsib
+    simp only [PTree.first] at htk
+    simp only [PTree.leftBisN, ← PTree.ownBis_length pos off cs_] at hbi
+    -- names
+    generalize hposl : pos ++ seg ++ [false] = posl at *
+    generalize hposr : pos ++ seg ++ [true] = posr at *
+    generalize hctxl : ctx ++ cs_.map (fun s => (true, s)) ++ [(false, r.hash H)] = ctxl at *
+    generalize hctxr : ctx ++ cs_.map (fun s => (true, s)) ++ [(false, l.hash H)] = ctxr at *
+    have hposll : posl.length = pos.length + cs_.length + 1 := by
+      rw [← hposl]; simp only [List.length_append, List.length_cons, List.length_nil, hsc]
+    have hposrl : posr.length = pos.length + cs_.length + 1 := by
+      rw [← hposr]; simp only [List.length_append, List.length_cons, List.length_nil, hsc]
+    have hctxll : ctxl.length = pos.length + cs_.length + 1 := by
+      rw [← hctxl]; simp only [List.length_append, List.length_map, List.length_cons, List.length_nil, hctx]
+    have hctxrl : ctxr.length = pos.length + cs_.length + 1 := by
+      rw [← hctxr]; simp only [List.length_append, List.length_map, List.length_cons, List.length_nil, hctx]
+    have hlsize := PTree.size_pos l
+    have hrsize := PTree.size_pos r
+    -- the first terminal of the `1`-side
+    have hinr := hin.right
+    rw [PTree.vpaths_length] at hinr
+    obtain ⟨tlr, hfr⟩ := PTree.vpaths_eq_first r posr (off + cs_.length + l.used)
+    have hnr : v.inner[i0 + l.size]? = some (r.first posr (off + cs_.length + l.used)) := by
+      have := hinr.getElem? 0 (by rw [hfr]; simp)
+      rw [hfr] at this
+      simpa using this
+    obtain ⟨hfr1, hfr2, hfr3⟩ := PTree.vpaths_route r posr _ halr _ (PTree.first_mem r posr _)
+    -- the `0`-side
+    obtain ⟨csl, hrl, hsl, htl, hbl, htil, xl, hxl⟩ := ihl posl ctxl (off + cs_.length) i0
+      (b0 + (PTree.ownBis pos off cs_).length) (pos.length + cs_.length + 1) P cs
+      hwl hall (by rw [hctxll, hposll]) hin.left hbis.left.right hsib.left.right
+      (by rw [hst, ← hctxl]; simp only [PTree.firstCtx, List.append_assoc])
+      htk (by rw [hbi]; omega) hti
+      (by
+        refine ⟨by omega, ?_⟩
+        rw [hnr]
+        refine ⟨by omega, ?_, ?_, hfr1⟩
+        · rw [← hposl]
+          have : pos.length + cs_.length + 1 - 1 = (pos ++ seg).length := by simp [hsc]
+          rw [this]; simp [List.getD]
+        · have : pos.length + cs_.length + 1 - 1 = (pos ++ seg).length := by simp [hsc]
+          rw [this, ← hposl, List.take_left, hposr]
+          exact hfr3)
+      ⟨hsorted, by intro e he; have := hPle e he; omega, by intro d h1 h2; omega⟩
+    rw [hnr] at hrl hxl
+    simp only [Option.map] at hrl hxl
+    have hPdrop : P.dropWhile (fun e => decide (e.2 > pos.length + cs_.length + 1)) = P := by
+      apply dropWhile_eq_self
+      intro e he
+      have := hPle e he
+      simp; omega
+    rw [hPdrop] at hxl
+    rw [List.take_of_length_le (by omega)] at hsl
+    -- `advance` for the first terminal of the `1`-side
+    have hbisr := hbis.right
+    rw [List.length_append] at hbisr
+    have hsibr := hsib.right
+    rw [List.length_append, ← PTree.used_eq_flat, ← Nat.add_assoc] at hsibr
+    have hstackl : stackOf ctxl = stackOf (ctx ++ cs_.map (fun s => (true, s))) := by
+      rw [← hctxl, stackOf_snoc_false]
+    have hstackr : stackOf ctxr = stackOf (ctx ++ cs_.map (fun s => (true, s))) := by
+      rw [← hctxr, stackOf_snoc_false]
+    obtain ⟨csr, hadv, hsr, htr, hbr, htir⟩ := advanceLoop_first H v r posr (off + cs_.length + l.used) ctxr
+      (b0 + ((PTree.ownBis pos off cs_).length + (l.vbis posl (off + cs_.length)).length))
+      (v.bisections.length + 1) true csl hwr (by rw [hctxrl, hposrl]) hbisr hsibr
+      (by rw [hbl]; omega) htl (by rw [hsl, hstackl, hstackr])
+      (by
+        intro _ e he
+        rw [hsl, hstackl] at he
+        have := (mem_stackOf _ e he).2
+        simp only [List.length_append, List.length_map] at this
+        omega)
+      (by
+        have h1 := PTree.leftBisN_le r posr (off + cs_.length + l.used)
+        have h2 := hbisr.length_le
+        omega)
+    have hadv' : csl.advance v = .ok csr := by
+      rw [advance_eq, htil, getIdx_some _ _ _ _ hnr]
+      exact hadv
+    -- the `1`-side
+    have hsize : i0 + l.size + r.size = i0 + (l.size + r.size) := by omega
+    obtain ⟨cs', hrr, hs', ht', hb', hti', xr, hxr⟩ := ihr posr ctxr (off + cs_.length + l.used) (i0 + l.size)
+      (b0 + ((PTree.ownBis pos off cs_).length + (l.vbis posl (off + cs_.length)).length)) tgt
+      (runV H (l.upds H A posl ctxl i0) (some (r.first posr (off + cs_.length + l.used)).route) P) csr
+      hwr halr (by rw [hctxrl, hposrl]) hinr hbisr hsibr hsr htr hbr (by rw [htir, htil])
+      (by
+        refine ⟨by omega, ?_⟩
+        rw [hsize]
+        simp only [PTree.size] at hnx
+        cases hn : v.inner[i0 + (l.size + r.size)]? with
+        | none => rw [hn] at hnx; exact hnx
+        | some nt =>
+          rw [hn] at hnx
+          obtain ⟨h0, hbit, hpre, hroute⟩ := hnx
+          refine ⟨h0, ?_, ?_, hroute⟩
+          · rw [← hposr, List.append_assoc, List.getD_eq_getElem?_getD,
+              List.getElem?_append_left (by omega), ← List.getD_eq_getElem?_getD]
+            exact hbit
+          · rw [← hposr, List.append_assoc, List.take_append_of_le_length (by omega)]
+            exact hpre)
+      (by
+        rw [hxl]
+        refine ⟨?_, ?_, ?_⟩
+        · refine List.pairwise_cons.2 ⟨?_, hsorted⟩
+          intro e he
+          have := hPle e he
+          simp only; omega
+        · intro e he
+          rcases List.mem_cons.1 he with h | h
+          · subst h; simp only; omega
+          · have := hPle e h; omega
+        · intro d hd1 hd2
+          by_cases hdc : d ≤ ctx.length
+          · have hne : d ≠ pos.length + cs_.length + 1 := by omega
+            have hleft : (∃ x, (x, d) ∈ (xl, pos.length + cs_.length + 1) :: P) ↔ ∃ x, (x, d) ∈ P := by
+              constructor
+              · rintro ⟨x, hx⟩
+                rcases List.mem_cons.1 hx with h | h
+                · injection h with _ h; exact absurd h hne
+                · exact ⟨x, h⟩
+              · rintro ⟨x, hx⟩; exact ⟨x, List.mem_cons_of_mem _ hx⟩
+            rw [hleft, hiff d hd1 hdc, ← hctxr, List.append_assoc, List.getElem?_append_left (by omega)]
+          · by_cases hdt : d = pos.length + cs_.length + 1
+            · subst hdt
+              constructor
+              · intro _
+                refine ⟨l.hash H, ?_⟩
+                rw [← hctxr, List.getElem?_append_right (by simp [hctx])]
+                simp [hctx]
+              · intro _; exact ⟨xl, by simp⟩
+            · constructor
+              · rintro ⟨x, hx⟩
+                rcases List.mem_cons.1 hx with h | h
+                · injection h with _ h; exact absurd h hdt
+                · have := hPle _ h; simp only at this; omega
+              · rintro ⟨s, hs⟩
+                exfalso
+                rw [← hctxr, List.getElem?_append_left (by simp [hctx]; omega),
+                  List.getElem?_append_right (by omega), List.getElem?_map] at hs
+                cases hu : cs_[d - 1 - ctx.length]? with
+                | none => rw [hu] at hs; cases hs
+                | some y => rw [hu] at hs; simp at hs)
+    -- assemble
+    obtain ⟨pr, tlu, hur, hurp⟩ := PTree.upds_head H A r posr ctxr (i0 + l.size) (off + cs_.length + l.used)
+    obtain ⟨pl, tll, hul, _⟩ := PTree.upds_head H A l posl ctxl i0 (off + cs_.length)
+    have hrun : runV H ((PTree.fork seg cs_ l r).upds H A pos ctx i0)
+        ((v.inner[i0 + (PTree.fork seg cs_ l r).size]?).map (·.route)) P =
+        runV H (r.upds H A posr ctxr (i0 + l.size)) ((v.inner[i0 + l.size + r.size]?).map (·.route))
+          (runV H (l.upds H A posl ctxl i0) (some (r.first posr (off + cs_.length + l.used)).route) P) := by
+      simp only [PTree.upds, PTree.size, hposl, hposr, hctxl, hctxr]
+      rw [runV_append' H _ _ pr tlu _ _ (by rw [hul]; simp) hur, hurp, hsize]
+    refine ⟨cs', ?_, ?_, ?_, ?_, ?_, ?_⟩
+    · rw [hrun, ← hrr]
+      have e1 : (PTree.fork seg cs_ l r).size - 1 = (l.size - 1) + ((r.size - 1) + 1) := by
+        simp only [PTree.size]; omega
+      have e3 : ingestN H L v A ((l.size - 1) + ((r.size - 1) + 1)) (i0 + 1) =
+          fun st => ingestN H L v A (l.size - 1) (i0 + 1) st >>= ingestN H L v A ((r.size - 1) + 1) (i0 + 1 + (l.size - 1)) :=
+        funext (ingestN_add H L v A _ _ _)
+      rw [e1, e3, ← Outcome.bind_assoc, hrl]
+      have e2 : i0 + 1 + (l.size - 1) = i0 + l.size := by omega
+      rw [e2]
+      simp only [Outcome.ok_bind, ingestN, ingestOne, hadv']
+    · rw [hs', ← hctxr, List.append_assoc, List.take_append_of_le_length (by omega)]
+    · rw [ht']; simp only [PTree.used]; omega
+    · rw [hb']; simp only [PTree.vbis, List.length_append, hposl, hposr]; omega
+    · rw [hti']; simp only [PTree.size]; omega
+    · rw [hrun, hxr, hxl]
+      refine ⟨xr, ?_⟩
+      have : decide ((xl, pos.length + cs_.length + 1).2 > tgt) = true := by simp; omega
+      simp [List.dropWhile, this]
+
 end Nomt
